@@ -7,7 +7,7 @@ use serde_json::json;
 fn model_specs(tier: Tier) -> Vec<Spec> {
     match tier {
         Tier::Quick => {
-            let mut v = vec![g(2, 2, 3, 3), Spec::Files { k: 0, cap: 0 }];
+            let mut v = vec![g(2, 2, 3, 3), g(2, 0, 3, 3), g(2, 1, 3, 3), g(1, 3, 3, 2), Spec::Files { k: 1, cap: 250 }];
             v.extend(all_seed_nbh(1, 1, 100_000));
             v
         }
@@ -37,7 +37,7 @@ fn real_specs(tier: Tier, property: &str) -> Vec<Spec> {
     }
     match tier {
         Tier::Quick => {
-            let mut v = vec![gsym(2, 2, 3, 2), Spec::Files { k: 0, cap: 0 }];
+            let mut v = vec![gsym(2, 2, 3, 2), g(2, 0, 2, 2), g(2, 1, 2, 2), Spec::Files { k: 0, cap: 0 }];
             v.extend(all_seed_nbh(0, 0, 1));
             v
         }
